@@ -816,6 +816,18 @@ def parse_model(model: str, *, check_syntax: bool = True) -> List[Symbol]:
         if name is None:
             verbatim.append(symbol)
         else:
+            # `combine()` only objects to two *different* equations: catch a
+            # repeated statement here, rather than silently merge the two
+            if (
+                symbol.equation is not None
+                and name in symbols
+                and symbols[name].equation is not None
+            ):
+                raise ParserError(
+                    f"Endogenous variable '{name}' defined twice:"
+                    f'\n    {symbols[name].equation}\n    {symbol.equation}'
+                )
+
             symbols[name] = symbols.get(name, symbol).combine(symbol)
 
     return list(symbols.values()) + verbatim
